@@ -30,7 +30,8 @@ ASSUMPTIONS = [
     "error positions of rejected texts are not compared (only 0 <= position <= len and that rendering succeeds)",
     "bytes input is compared only for texts that have a UTF-8 encoding (no lone surrogates)",
     "bytes sources that are not valid UTF-8 must be rejected with GraphQLSyntaxError (position = character offset of the first "
-    "undecodable byte inside the U+FFFD-replaced text, fix C01-B8); decoding itself is not modelled in Lean (only exercised)",
+    "undecodable byte inside the U+FFFD-replaced text, fix C01-B8); strict UTF-8 decoding is modelled (Utf8.lean: decode_encode, "
+    "parse_bytes_eq_text) and compared with Lexer.__init__ and with bytes.decode; the U+FFFD-replaced text of the error is only exercised",
     "`\"\"` [lookahead != `\"`] (three quotes always open a block string) and IntegerPart `0` [lookahead != Digit] are readings of the "
     "June-2018 lexical grammar pinned by the suite; Spec/LexicalReadings.lean names them (EmptyStringLookahead, ZeroLookahead) - "
     "known findings LA3, LA4",
@@ -855,6 +856,7 @@ def run(ctx):
     oracle_spec_readings(ctx)
     oracle_comments(ctx, rng)
     oracle_invalid_utf8(ctx, rng)
+    corr_utf8_decoding(ctx, rng)
     oracle_blockless_definitions(ctx)
 
     # --- mutants and prefixes -----------------------------------------------------------------
@@ -1174,6 +1176,82 @@ def oracle_invalid_utf8(ctx, rng):
                                  {"part": PART, "kind": "invalid_utf8", "bytes": list(src), "entry": entry, "class": label, "where": where})
                     else:
                         ctx.nontrivial(("badutf8", entry, src))
+
+
+def real_decode(src):
+    """what Lexer.__init__ makes of a bytes source: ('ok', text) | ('err', position of the InvalidCharacter) | ('internal', Class)"""
+    from py_gql.lang.lexer import Lexer
+    from py_gql.exc import GraphQLSyntaxError, InvalidCharacter
+    try:
+        lx = Lexer(src)
+        return ("ok", lx._source)
+    except InvalidCharacter as e:
+        return ("err", e.position)
+    except GraphQLSyntaxError as e:
+        return ("internal", "other-syntax-error:" + type(e).__name__)
+    except Exception as x:  # noqa
+        return ("internal", type(x).__name__)
+
+
+def corr_utf8_decoding(ctx, rng):
+    """Utf8.decode (model of ensure_unicode / Lexer.__init__ on bytes, theorems decode_encode / parse_bytes_eq_text) against the
+    real code: every invalid class in every frame, every encoded boundary code point, random byte strings and byte-level
+    mutants of valid encodings. Compared: accept / reject, the decoded text, and the character offset the syntax error
+    carries (the value fix C01-B8 defines); Python's own decoder is the reference for the same three."""
+    if not ctx.model_ok:
+        return
+    cases = []
+    for _, bad in INVALID_UTF8:
+        for pre, post in ((b"", b""), (b"{ a }", b""), (b'{ a(b: "\xc3\xa9', b'") }'), (b"\xf0\x9f\x98\x80", b"x")):
+            cases.append(pre + bad + post)
+    for cp in (0, 0x7F, 0x80, 0x7FF, 0x800, 0xFFF, 0x1000, 0xCFFF, 0xD000, 0xD7FF, 0xE000, 0xFFFD, 0xFFFF, 0x10000, 0x3FFFF, 0x40000,
+               0xFFFFF, 0x100000, 0x10FFFF):
+        cases.append(("a" + chr(cp) + "b").encode("utf8"))
+    for _ in range(ctx.n(300, 3000)):
+        k = rng.random()
+        if k < 0.4:
+            cases.append(bytes(rng.choice([0x00, 0x41, 0x7F, 0x80, 0x9F, 0xA0, 0xBF, 0xC0, 0xC1, 0xC2, 0xDF, 0xE0, 0xE1, 0xEC, 0xED, 0xEE, 0xEF,
+                                           0xF0, 0xF1, 0xF3, 0xF4, 0xF5, 0xFF, 0x8F, 0x90]) for _ in range(rng.randint(1, 6))))
+        else:
+            t = "".join(chr(rng.choice([0x41, 0xE9, 0x7FF, 0x800, 0x20AC, 0xD7FF, 0xE000, 0xFFFF, 0x10000, 0x1F600, 0x10FFFF]))
+                        for _ in range(rng.randint(1, 4)))
+            b = bytearray(t.encode("utf8"))
+            if k < 0.8 and b:
+                i = rng.randrange(len(b))
+                m = rng.random()
+                if m < 0.4:
+                    b[i] = rng.choice([0x80, 0xBF, 0xC0, 0xE0, 0xED, 0xF0, 0xF4, 0xFF, 0x28])
+                elif m < 0.7:
+                    del b[i]
+                else:
+                    del b[i:]
+            cases.append(bytes(b))
+    cases = [c for c in cases if c]
+    answers = ctx.driver.ask([{"op": "decode_utf8", "bytes": list(c)} for c in cases])
+    for src, a in zip(cases, answers):
+        ctx.count()
+        try:
+            ref = ("ok", src.decode("utf8"))
+        except UnicodeDecodeError as e:
+            ref = ("err", len(src[:e.start].decode("utf8")))
+        real = real_decode(src)
+        model = ("ok", from_cps(a["ok"])) if "ok" in a else ("err", a.get("err"))
+        ctx.stat("utf8:%s" % ref[0])
+        if ref[0] == "err" or any(ord(ch) > 0x7F for ch in ref[1]):
+            ctx.nontrivial(("utf8", src))
+        if real[0] == "internal":
+            ctx.fail("invalid-utf8-bytes:%s" % real[1], "Lexer(bytes) raises %s" % real[1],
+                     {"part": PART, "kind": "invalid_utf8", "bytes": list(src), "entry": "lexer"})
+        elif real != model:
+            ctx.fail("corr:utf8-decoding:%s-vs-%s" % (real[0], model[0]),
+                     "Lexer.__init__ on a bytes source and the model Utf8.decode differ (text / reject / character offset)",
+                     {"part": PART, "kind": "utf8", "bytes": list(src), "impl": repr(real)[:200], "model": repr(model)[:200]},
+                     kind="correspondence")
+        elif ref != model:
+            ctx.fail("corr:utf8-decoding:python-decoder:%s-vs-%s" % (ref[0], model[0]),
+                     "bytes.decode('utf8') and the model Utf8.decode differ",
+                     {"part": PART, "kind": "utf8", "bytes": list(src), "impl": repr(ref)[:200], "model": repr(model)[:200]},
+                     kind="correspondence")
 
 
 BLOCKLESS_CASES = [
